@@ -61,3 +61,7 @@ add("C11", "model_checking", "explicit-state BFS over operation histories of a r
     "Breadth-first search to depth 4 (thorough 6) over 21 operations (set configuration x4, derive comments x4, derive auth blocks x8, append/insert firmware with/without TYPE tag, write+read back); after every transition the real object is compared with a reference state (one configuration component, last, decoding to the latest configuration; other components untouched; derived comments; auth-block rules).",
     "State merging by observable fields (components, comments, auth blocks); at most 3 firmware components; reference TLV decoder and identifier model trusted.",
     "E2", "DESIGN.md 4/C11")
+add("C13", "exploration", "bounded exhaustive enumeration over a BF2 generator: every image size, every gap position, every event sequence up to a depth, every filter of <=3 entries",
+    "Every image size 1..300 x 3 line sizes plus page crossings, a gap/overlap at every line index of images of up to 8 lines, every tag type 0x30..0xA8, instruction variants, all section orders of length 3, EVERY event sequence of length <= 5 (thorough 6) over 9 event kinds, memory images with gaps at every subset of <= 3 positions, and every platform filter of <= 3 entries: payloads are compared with the generating image, tags/order/comments/accept-reject with a reference importer, filter text by truth table.",
+    "The BF2 grammar and the section rules are reverse-engineered from the importer (no sample exists); overlapping data lines are not judged.",
+    "E1+E2", "DESIGN.md 4/C13")
